@@ -72,7 +72,7 @@ CLAIMED.update({
         text=("Decides: every key stored into the attribute dictionary has passed _check_attribute, which rejects undeclared names and applies the attribute's simple type; "
               "in-place edits of the dictionary concern None-valued keys only; the required-attribute rejection is guarded by nothing but complex-typedness, is_required and "
               "absence from the current attributes; is_required <=> use='required'; attributes are serialised verbatim; schema attribute names are disjoint from everything "
-              "that diverts a dot access; plus the attribute-table rows of C03 for all (element, attribute) pairs (names incl. xml:/xlink: prefixes, types, use)."),
+              "that diverts a dot access; no function of the validation path is wrapped in a cache keyed by argument values (2 == 2.0 == True); plus the attribute-table rows of C03 for all (element, attribute) pairs (names incl. xml:/xlink: prefixes, types, use)."),
         note="Does not decide the value half of the iff (C05). Known findings KF-09/10/11/17/18 are genuine defects recorded in known_findings.json.",
         design='DESIGN.md section 4, C04'),
 })
@@ -85,8 +85,9 @@ CLAIMED.update({
               "schema has none of the shapes the gate does not model; patterns are applied with fullmatch and every XSD-only regex construct in use is rewritten, the "
               "translated patterns compile, the replacement classes equal the XML 1.0 name productions; the rejecting comparison of every bound facet and primitive gate "
               "has the facet's three-cell table; the enumeration list is the type's own and per instance; the value validated is the value stored and rendered along the "
-              "whole setter chain; bool/non-finite floats and text on no-content types are reported (known findings KF-12/13/14)."),
-        note="Does not decide two-sided exactness for arbitrary values (token whitespace collapsing, xs:date arithmetic, unions over arbitrary values).",
+              "whole setter chain; the whitespace collapse in front of token patterns treats exactly the four XML whitespace characters as blanks; no gate is memoised by "
+              "argument value; bool/non-finite floats and text on no-content types are reported (known findings KF-12/13/14)."),
+        note="Does not decide two-sided exactness for arbitrary values (the collapsed form of every token, xs:date arithmetic, unions over arbitrary values).",
         design='DESIGN.md section 4, C05'),
 })
 
@@ -118,7 +119,7 @@ CLAIMED.update({
         text=("Decides: __setattr__, _convert_attribute_to_child and __getattr__ store nothing themselves (every effect is a call of the explicit API); for the six "
               "combinations of (child found, value None, value is an element) exactly the corresponding explicit operation is reachable; the class lookup is dominated by "
               "the possible-children membership test; xml_<name> <-> element name is a bijection agreeing with the class naming rule on all 441 names; __getattr__ returns "
-              "stored attributes by presence, None for declared attributes and possible children, the child when present, AttributeError otherwise; attribute names are "
+              "stored attributes by presence, None for declared attributes and possible children, the child when present (whether or not the container lists its name), AttributeError otherwise; attribute names are "
               "disjoint from everything that diverts a dot access (known finding KF-11: name)."),
         note="Equivalence of the *explicit* operations themselves (what add_child/replace_child do) is the business of C01/C06/C10.",
         design='DESIGN.md section 4, C15'),
